@@ -523,11 +523,27 @@ def c08_10(ctx):
 
 def c08_11(ctx):
     """no derivation result is remembered under a key that leaves out the index / path / parent"""
-    from sa.memo import memo_obligation
-    return memo_obligation(ctx, ["hd"], "a child derived once would be returned for another index or path")
+    from sa.memo import cache_obligation
+    return cache_obligation(ctx, ["hd", "blinding", "helper", "pecc"], "a child derived once would be returned for another index or path")
+
+
+def c08_16(ctx):
+    """SET-ORDER: no ordered result (list, serialisation, yielded sequence) of the modules this property is anchored in takes its
+    order from the iteration order of a set"""
+    from sa.setorder import setorder_obligation
+    return setorder_obligation(ctx, ["hd", "blinding", "helper", "pecc"], "the same inputs give different output from run to run")
+
+
+def c08_17(ctx):
+    """SHARED necessary conditions over the modules this property is anchored in: FALSY-DEFAULT, MUTABLE-DEFAULT, IDENTITY, ALIAS,
+    CTOR-FORWARD (sa/shared.py)"""
+    from sa.shared import shared_obligations
+    return shared_obligations(ctx, ["hd", "blinding", "helper", "pecc"], "the result would depend on something other than the arguments and the object's current state")
 
 
 OBLIGATIONS = [
+    ("C08.17", "SHARED", c08_17),
+    ("C08.16", "SET-ORDER", c08_16),
     ("C08.15", "NOTATION", c08_15),
     ("C08.14", "CELLS version kept", c08_14),
     ("C08.13", "GUARD default", c08_13),
